@@ -41,6 +41,24 @@ pub fn rules() -> Vec<Value> {
         json!({"<": [{"var": "n"}, {"var": "a"}, "9"]}),
         json!({"in": [{"var": "n"}, {"var": "xs"}]}),
         json!({"+": ["x", {"var": "n"}]}),
+        // "big" variants: many operands, long strings, longer collections - code paths that
+        // would own scratch buffers or size-dependent fast paths
+        json!({"cat": [{"var": "a"}, "-0123456789012345678901234567890123456789012345678901234567890123456789-", {"var": "n"}, [1, null, [2]], {"var": "b"}]}),
+        json!({"merge": [{"var": "xs"}, [[1], 2], {"var": "a"}, null, {"var": "xs"}, [{"var": "inert"}]]}),
+        json!({"+": [{"var": "n"}, 1, "2", [3], 4.5, {"var": "n"}, "6e0"]}),
+        json!({"*": [{"var": "n"}, 2, "3", [4], {"var": "n"}]}),
+        json!({"max": [{"var": "n"}, 2, "10", [3], -1, 9.5]}),
+        json!({"missing": ["a", "b", "zz", "b.c", "xs.0", "xs.5", "n", "yy"]}),
+        json!({"missing_some": [3, ["a", "zz", "b", "yy", "xs.1", "zz"]]}),
+        json!({"if": [{"var": "nope"}, 1, {"var": "b"}, 2, {"var": "a"}, 3, {"var": "n"}, 4, 5]}),
+        json!({"or": [{"var": "nope"}, 0, "", {"var": "b"}, {"var": "a"}, {"var": "n"}]}),
+        json!({"map": [[1, 2, 3, 4, 5, 6, 7, 8], {"cat": [{"var": ""}, ":", {"var": ""}]}]}),
+        json!({"filter": [[0, 1, "", "a", null, [], [0], {}], {"var": ""}]}),
+        json!({"all": [["a", "b", "c", "d", "e"], {"in": [{"var": ""}, "abcde"]}]}),
+        json!({"substr": [{"cat": [{"var": "a"}, "0123456789abcdefghijklmnopqrstuvwxyzABCDEFGHIJKLMNOPQRSTUVWXYZ-é水😀"]}, -70, 66]}),
+        json!({"in": [{"var": "n"}, [0, 1, 2.0, 3, 4, 5, 6, 7.0, 8, 9, "2", [2]]]}),
+        json!({"var": ["xs.-1", {"var": ["b.c", {"var": "a"}]}]}),
+        json!({"reduce": [[1, 2, 3, 4, 5, 6], {"merge": [{"var": "accumulator"}, [{"var": "current"}]]}, {"var": "xs"}]}),
     ]
 }
 
